@@ -37,36 +37,43 @@ toml_doc = uf("toml_doc", [FileT], Any, concrete=lambda f: _tomllib.load(f))
 dict_items = uf("dict_items", [Dict], Assoc(Any), concrete=lambda d: list(d.items()))
 
 
-def _may_raise(ex, cls, lineno):
+fs_open_fails = uf("fs_open_fails", [PathT], Bool, concrete=lambda p: not __import__("os").access(p, __import__("os").R_OK))
+json_invalid = uf("json_invalid", [FileT], Bool)
+toml_invalid = uf("toml_invalid", [FileT], Bool)
+
+
+def _raise_iff(ex, cond, cls):
+    """The external fails with `cls` exactly when the (uninterpreted) condition holds: one deterministic snapshot of
+    the file system / file contents per verification unit, nameable in contracts."""
     if ex.merge_depth > 0 or ex.spec_depth > 0:
         return
-    b = z3.Const(fresh_name(f"ext.raises.{cls}"), z3.BoolSort())
-    if ex.decide(b):
+    if ex.decide(cond):
         raise RaiseSig(VExc(cls))
 
 
 @external("Path.open")
 def _x_path_open(ex, args, kwargs, lineno):
-    """path.open(...) -> the opaque file handle file_of(path) (mode / encoding are not modelled); may raise OSError."""
-    _may_raise(ex, "OSError", lineno)
-    ex.ufs_used.add("file_of (the open file of a path)")
+    """path.open(...) -> the opaque file handle file_of(path) (mode / encoding are not modelled); OSError iff
+    fs_open_fails(path)."""
+    _raise_iff(ex, z3.Function("uf.fs_open_fails", PathT.sort(), z3.BoolSort())(args[0].t), "OSError")
+    ex.ufs_used.update({"file_of (the open file of a path)", "fs_open_fails"})
     return VOpaque(z3.Function("uf.file_of", PathT.sort(), FileT.sort())(args[0].t), FileT)
 
 
 @external("json.load")
 def _x_json_load(ex, args, kwargs, lineno):
-    """json.load(f) -> json_doc(f), an arbitrary dynamic value; may raise json.JSONDecodeError."""
-    _may_raise(ex, "JSONDecodeError", lineno)
-    ex.ufs_used.add("json.load returns json_doc(file) or raises JSONDecodeError")
+    """json.load(f) -> json_doc(f), an arbitrary dynamic value; json.JSONDecodeError iff json_invalid(f)."""
+    _raise_iff(ex, z3.Function("uf.json_invalid", FileT.sort(), z3.BoolSort())(args[0].t), "JSONDecodeError")
+    ex.ufs_used.add("json.load returns json_doc(file), JSONDecodeError iff json_invalid(file)")
     return VAny(z3.Function("uf.json_doc", FileT.sort(), ValSort)(args[0].t))
 
 
 @external("tomllib.load")
 def _x_toml_load(ex, args, kwargs, lineno):
     """tomllib.load(f) -> toml_doc(f): always a dict (a TOML document is a table); by PEP 518 `tool` and `tool.thailint`
-    are tables when present (trusted shape assumption); may raise tomllib.TOMLDecodeError."""
-    _may_raise(ex, "TOMLDecodeError", lineno)
-    ex.ufs_used.add("tomllib.load returns toml_doc(file) (a dict; [tool] / [tool.thailint] are tables) or raises TOMLDecodeError")
+    are tables when present (trusted shape assumption); tomllib.TOMLDecodeError iff toml_invalid(f)."""
+    _raise_iff(ex, z3.Function("uf.toml_invalid", FileT.sort(), z3.BoolSort())(args[0].t), "TOMLDecodeError")
+    ex.ufs_used.add("tomllib.load returns toml_doc(file) (a dict; [tool] / [tool.thailint] are tables), TOMLDecodeError iff toml_invalid(file)")
     t = z3.Function("uf.toml_doc", FileT.sort(), ValSort)(args[0].t)
     if ex.merge_depth == 0 and ex.spec_depth == 0:
         ex.assume(ValSort.is_D(t))
@@ -115,7 +122,7 @@ def normalised_lookup(items, acc, nk):
 
 
 # =================================================================== parsers
-@contract(CP + "parse_yaml", props=["C05", "C20"], types=dict(file_obj=FileT, path=PathT, data=Any), returns=Any,
+@contract(CP + "parse_yaml", no_selftest=True, props=["C05", "C20"], types=dict(file_obj=FileT, path=PathT, data=Any), returns=Any,
           raises=["ConfigParseError"])
 class ParseYaml:
     """Malformed YAML is a ConfigParseError (nothing else escapes); an empty document is the empty config."""
@@ -124,7 +131,7 @@ class ParseYaml:
         return yaml_doc(file_obj) if yaml_doc(file_obj) is not None else {}
 
 
-@contract(CP + "parse_json", props=["C05", "C20"], types=dict(file_obj=FileT, path=PathT, result=Any), returns=Any,
+@contract(CP + "parse_json", no_selftest=True, props=["C05", "C20"], types=dict(file_obj=FileT, path=PathT, result=Any), returns=Any,
           raises=["ConfigParseError"])
 class ParseJson:
     def value(file_obj, path):
@@ -136,10 +143,13 @@ def tool_thailint(doc):
     return doc.get("tool", {}).get("thailint", {})
 
 
-@contract(CP + "parse_pyproject_toml", props=["C05"], types=dict(path=PathT, f=FileT, data=Any, thailint_config=Any),
+@contract(CP + "parse_pyproject_toml", no_selftest=True, props=["C05"], types=dict(path=PathT, f=FileT, data=Any, thailint_config=Any),
           returns=Dict, raises=["ConfigParseError"])
 class ParsePyprojectToml:
     """Unreadable or malformed pyproject.toml is a ConfigParseError; otherwise the NORMALISED [tool.thailint] table."""
+
+    def raises_when(path):
+        return fs_open_fails(path) or toml_invalid(file_of(path))
 
     def ensures_normalised_tool_thailint(path, result):
         return result == norm_fold(dict_items(tool_thailint(toml_doc(file_of(path)))), {})
@@ -149,7 +159,7 @@ def suffix_lower(path):
     return path.suffix.lower()
 
 
-@contract(CP + "parse_config_file", props=["C05", "C20"], types=dict(path=PathT, encoding=Str, f=FileT, config=Any, suffix=Str),
+@contract(CP + "parse_config_file", no_selftest=True, props=["C05", "C20"], types=dict(path=PathT, encoding=Str, f=FileT, config=Any, suffix=Str),
           returns=Dict, raises=["ConfigParseError", "OSError"])
 class ParseConfigFile:
     """.yaml/.yml -> YAML, .json -> JSON (extension compared lower-cased), anything else is a ConfigParseError; the
@@ -177,7 +187,7 @@ class GetDefaults:
         return {"rules": {}, "ignore": []}
 
 
-@contract(LD + "load_config", props=["C05"], types=dict(config_path=PathT, pyproject_path=PathT, config=Dict), returns=Dict,
+@contract(LD + "load_config", no_selftest=True, props=["C05"], types=dict(config_path=PathT, pyproject_path=PathT, config=Dict), returns=Dict,
           raises=["ConfigParseError", "OSError"])
 class LoadConfig:
     """Existing file: parse_config_file. Missing file: [tool.thailint] of the pyproject.toml next to it (normalised like
@@ -188,12 +198,27 @@ class LoadConfig:
 
     def ensures_missing_file_uses_pyproject(config_path, result):
         return implies(not fs_exists(config_path),
-                       result == norm_fold(dict_items(tool_thailint(toml_doc(file_of(path_div(path_parent(config_path),
-                                                                                                      "pyproject.toml"))))), {})
+                       result == norm_fold(dict_items(tool_thailint(toml_doc(file_of(pyproject_of(config_path))))), {})
                        or result == {"rules": {}, "ignore": []})
+
+    def ensures_malformed_pyproject_is_an_error(config_path, result):
+        # property text: "an unparsable file ends the run with exit code 2 instead of silently falling back to defaults"
+        # (expected to fail: known finding C05-malformed-pyproject-falls-back-to-defaults)
+        return implies(not fs_exists(config_path),
+                       fs_open_fails(pyproject_of(config_path)) or not toml_invalid(file_of(pyproject_of(config_path))))
+
+    def ensures_malformed_or_unreadable_pyproject_gives_defaults(config_path, result):
+        # finding-adjusted: an unreadable AND a malformed pyproject.toml both silently yield the built-in defaults
+        return implies(not fs_exists(config_path)
+                       and (fs_open_fails(pyproject_of(config_path)) or toml_invalid(file_of(pyproject_of(config_path)))),
+                       result == {"rules": {}, "ignore": []})
 
 
 path_parent = uf("path_parent", [PathT], PathT, concrete=lambda p: p.parent)
+
+
+def pyproject_of(config_path):
+    return path_div(path_parent(config_path), "pyproject.toml")
 
 
 @external("Path.@parent")
@@ -205,7 +230,7 @@ def _x_path_parent(ex, args, kwargs, lineno):
 LoaderT = Rec("LinterConfigLoader", cls=LD + "LinterConfigLoader")
 
 
-@contract(LD + "LinterConfigLoader.load", props=["C05"], types=dict(self=LoaderT, config_path=PathT), returns=Dict,
+@contract(LD + "LinterConfigLoader.load", no_selftest=True, props=["C05"], types=dict(self=LoaderT, config_path=PathT), returns=Dict,
           raises=["ConfigParseError", "OSError"])
 class LoaderLoad:
     def requires(config_path):
@@ -213,6 +238,5 @@ class LoaderLoad:
 
     def ensures_missing_file_uses_pyproject(config_path, result):
         return implies(not fs_exists(config_path),
-                       result == norm_fold(dict_items(tool_thailint(toml_doc(file_of(path_div(path_parent(config_path),
-                                                                                                      "pyproject.toml"))))), {})
+                       result == norm_fold(dict_items(tool_thailint(toml_doc(file_of(pyproject_of(config_path))))), {})
                        or result == {"rules": {}, "ignore": []})
